@@ -837,9 +837,15 @@ fn parse_nth_child_args(text: &str) -> IResult<&str, SelectorComponent> {
     let (rest, _) = tag("(")(text)?;
     let (rest, _) = skip_optional_whitespace(rest)?;
 
-    let (rest, (a, b)) = alt((
-        map(tag("even"), |_| (2, 0)),
-        map(tag("odd"), |_| (2, 1)),
+    // Numbers too large for i32 make the selector invalid rather than panic.
+    fn num(digits: Option<&str>, sign: Sign) -> Option<i32> {
+        <i32 as FromStr>::from_str(digits.unwrap_or("1"))
+            .ok()?
+            .checked_mul(sign.val())
+    }
+    let (rest, ab) = alt((
+        map(tag("even"), |_| Some((2, 0))),
+        map(tag("odd"), |_| Some((2, 1))),
         // The case where both a and b are specified
         map(
             tuple((
@@ -851,27 +857,22 @@ fn parse_nth_child_args(text: &str) -> IResult<&str, SelectorComponent> {
                 digit1,
             )),
             |(a_sign, a_opt_val, _, _, b_sign, b_val)| {
-                let a =
-                    <i32 as FromStr>::from_str(a_opt_val.unwrap_or("1")).unwrap() * a_sign.val();
-                let b = <i32 as FromStr>::from_str(b_val).unwrap() * b_sign.val();
-                (a, b)
+                Some((num(a_opt_val, a_sign)?, num(Some(b_val), b_sign)?))
             },
         ),
         // Just a
         map(
             tuple((opt_sign, opt(digit1), tag("n"))),
-            |(a_sign, a_opt_val, _)| {
-                let a =
-                    <i32 as FromStr>::from_str(a_opt_val.unwrap_or("1")).unwrap() * a_sign.val();
-                (a, 0)
-            },
+            |(a_sign, a_opt_val, _)| Some((num(a_opt_val, a_sign)?, 0)),
         ),
         // Just b
         map(tuple((opt_sign, digit1)), |(b_sign, b_val)| {
-            let b = <i32 as FromStr>::from_str(b_val).unwrap() * b_sign.val();
-            (0, b)
+            Some((0, num(Some(b_val), b_sign)?))
         }),
     ))(rest)?;
+    let Some((a, b)) = ab else {
+        return fail(text);
+    };
 
     let (rest, _) = tuple((skip_optional_whitespace, tag(")")))(rest)?;
 
